@@ -77,7 +77,7 @@ def replay_cases(rep, cases, seed, sections=("meta", "ops", "modes"), fingerprin
         c["strict_cls"] = strict_cls
         if layout:
             c["layout"] = layout
-    res = realrun.pmap(judge, cases)
+    res = realrun.pmap(judge, cases, chunk=max(4, min(200, len(cases) // 64)), min_items=64)
     cnt = {"ok": 0, "bad": 0, "unspec": 0, "render": 0}
     for c, (st, d) in zip(cases, res):
         cnt[st] = cnt.get(st, 0) + 1
